@@ -5,6 +5,7 @@ import (
 	"reflect"
 	"sort"
 	"strings"
+	"time"
 
 	"github.com/CloudyKit/jet/v6"
 	"verifh/internal/fw"
@@ -194,6 +195,23 @@ func c05chanOf(vals ...string) chan string {
 	return ch
 }
 
+// c05liveChan: a channel that is still open and (mostly) empty when the range starts: a range over a channel waits for
+// every element until the channel is closed
+func c05liveChan(vals ...string) chan string { return c05liveChanCap(2, vals...) }
+
+func c05liveChanCap(capacity int, vals ...string) chan string {
+	ch := make(chan string, capacity)
+	go func() {
+		for _, v := range vals {
+			time.Sleep(300 * time.Microsecond)
+			ch <- v
+		}
+		time.Sleep(300 * time.Microsecond)
+		close(ch)
+	}()
+	return ch
+}
+
 var c05subjects = []c05subject{
 	{"[]string", func() interface{} { return []string{"a", "b", "c"} }, true, []c05elem{{"0", "a"}, {"1", "b"}, {"2", "c"}}},
 	{"[2]int", func() interface{} { return [2]int{7, 8} }, true, []c05elem{{"0", "7"}, {"1", "8"}}},
@@ -208,6 +226,8 @@ var c05subjects = []c05subject{
 	{"empty []int", func() interface{} { return []int{} }, true, nil},
 	{"nil map", func() interface{} { return map[string]int(nil) }, true, nil},
 	{"closed empty chan", func() interface{} { return c05chanOf() }, false, nil},
+	{"buffered chan with a slow live producer", func() interface{} { return c05liveChan("x", "y", "z") }, false, []c05elem{{"", "x"}, {"", "y"}, {"", "z"}}},
+	{"unbuffered chan with a live producer", func() interface{} { return c05liveChanCap(0, "p", "q") }, false, []c05elem{{"", "p"}, {"", "q"}}},
 	{"struct Ranger yielding nothing", func() interface{} { return &c05structR{} }, false, nil},
 	{"slice-kinded Ranger yielding nothing", func() interface{} { return c05sliceR{0, 0} }, true, nil},
 	{"chan-kinded Ranger yielding nothing", func() interface{} { return c05chanR(c05chanOf("", "")) }, false, nil},
